@@ -12,10 +12,17 @@ def correspond(ctx):
                          "flags as variables/negations/constants, both routes; program emitted by the real "
                          "division_connected_variable_groups(_with_borders) and the returned ids vs the Lean model"
                          "; size variables declared 1..n or each with its own narrow domain (k..k, a..a+1, a..a+2) + a handful of deterministic medium / LARGE instances per family (graphs.big_graphs: 40, 70 and 258..319 vertices -- vertex ids beyond CPython's small-int cache, more than 32 / 64 vertices --, boards up to 16x17); about half of the Graph objects are observed part-way through construction (accessors read, every graph constraint posted once on a throw-away Solver) before the remaining edges are added")
-    graphcorr.run_cases(ctx, graphcorr.case_vgroups, ctx.n(300, 4000), "vgroups", with_ids=True, bigs=graphcorr.graph_bigs() + graphcorr.grid_bigs())
-    graphcorr.run_cases(ctx, graphcorr.case_vgborders, ctx.n(300, 4000), "vgborders", bigs=graphcorr.graph_bigs())
-    graphcorr.run_cases(ctx, graphcorr.case_vgborders_frame, ctx.n(80, 800), "vgborders_frame", bigs=graphcorr.grid_bigs())
-    graphcorr.run_cases(ctx, graphcorr.case_vgroups_shape, ctx.n(80, 800), "vgroups_shape", with_ids=True, bigs=graphcorr.grid_bigs())
+    # every size of the medium range (graphs.medium_graphs / medium_grids).  These families are the expensive ones (seconds per hundred
+    # instances), so the quick tier takes every n once per GRAPH family (one shape per n, rotating) and a quarter of the heights per
+    # board family; the thorough tier takes everything.
+    mg = graphcorr.medium_bigs("rotate" if ctx.quick() else "all")
+    mgrid = graphcorr.medium_grid_bigs()
+    step = 4 if ctx.quick() else 1
+    graphcorr.run_cases(ctx, graphcorr.case_vgroups, ctx.n(300, 4000), "vgroups", with_ids=True,
+                        bigs=graphcorr.graph_bigs() + graphcorr.grid_bigs() + mg + ([] if ctx.quick() else mgrid))
+    graphcorr.run_cases(ctx, graphcorr.case_vgborders, ctx.n(300, 4000), "vgborders", bigs=graphcorr.graph_bigs() + mg)
+    graphcorr.run_cases(ctx, graphcorr.case_vgborders_frame, ctx.n(80, 800), "vgborders_frame", bigs=graphcorr.grid_bigs() + mgrid[::step])
+    graphcorr.run_cases(ctx, graphcorr.case_vgroups_shape, ctx.n(80, 800), "vgroups_shape", with_ids=True, bigs=graphcorr.grid_bigs() + mgrid[1::step])
     if not ctx.quick():
         for f in search(ctx, None, budget=24):
             ctx.disagree("semantic", what=f.what, data=f.data)
@@ -96,6 +103,49 @@ def _check_borders(n, edges, sizes, prim):
         comp = cut_blocks(n, edges, bd)
         want = all(not (bd[k] and comp[u] == comp[v]) for k, (u, v) in enumerate(edges)) and \
             all(sizes[v] is None or sum(1 for w in range(n) if comp[w] == comp[v]) == sizes[v] for v in range(n))
+        if got != want:
+            return list(bd), got, want
+    return None
+
+
+def _check_borders_portable(n, edges, sizes, arg, gp, dp, frame=None):
+    """Primitive OFF, decided by the REAL portable backend.  The call is made with use_graph_primitive=`arg` (False, or None with the
+    configured division flag off) while config.use_graph_primitive = gp and config.use_graph_division_primitive = dp; the flags are
+    restored before solving.  With the primitive off only portable constraints may be posted, so `Solver.find_answer("z3")` must decide
+    every border pattern, and as the definition says.  frame=(H, W): IntArray2D sizes / BoolInnerGridFrame borders (`edges` = the
+    cell graph in the frame's variable order)."""
+    from cspuz import Solver, graph as G
+    from cspuz.array import IntArray2D
+    from cspuz.configuration import config
+    from cspuz.grid_frame import BoolInnerGridFrame
+    m = len(edges)
+    mk = graphs.mk_graph(n, edges) if frame is None else None
+    for bd in graphs.all_patterns(m):
+        s = Solver()
+        old = (config.use_graph_primitive, config.use_graph_division_primitive)
+        config.use_graph_primitive, config.use_graph_division_primitive = gp, dp
+        try:
+            if frame:
+                gs = IntArray2D([s.int_var(1, n) if x is None else s.int_var(x, x) for x in sizes], frame)
+                fr = BoolInnerGridFrame(s, frame[0], frame[1])
+                bs = list(fr.horizontal.data) + list(fr.vertical.data)
+                G.division_connected_variable_groups_with_borders(s, group_size=gs, is_border=fr, use_graph_primitive=arg)
+            else:
+                bs = [s.bool_var() for _ in range(m)]
+                G.division_connected_variable_groups_with_borders(s, group_size=list(sizes), is_border=bs, graph=mk, use_graph_primitive=arg)
+        finally:
+            config.use_graph_primitive, config.use_graph_division_primitive = old
+        for k in range(m):
+            s.ensure(bs[k] if bd[k] else ~bs[k])
+        comp = cut_blocks(n, edges, bd)
+        want = all(not (bd[k] and comp[u] == comp[v]) for k, (u, v) in enumerate(edges)) and \
+            all(sizes[v] is None or sum(1 for w in range(n) if comp[w] == comp[v]) == sizes[v] for v in range(n))
+        try:
+            got = bool(core.with_timeout(20, s.find_answer, "z3"))
+        except core.RealTimeout:
+            raise
+        except Exception as e:
+            return list(bd), "%s: %s" % (core.err_name(e), str(e)[:120]), want
         if got != want:
             return list(bd), got, want
     return None
@@ -383,6 +433,31 @@ def search(ctx, why, budget=None):
                 "borders:frame", f"division_connected_variable_groups_with_borders(group_size=IntArray2D, is_border=BoolInnerGridFrame) on a "
                 f"{H}x{W} board, borders={bad[0]}, sizes={bad[1]}: satisfiable={bad[2]} expected {bad[3]}",
                 {"fn": "frame", "H": H, "W": W, "borders": bad[0], "sizes": bad[1]})
+    # the explicit argument beats the configuration (and None follows it): primitive OFF under every setting of the two global
+    # flags, decided by the real portable backend
+    portable = [(5, [(0, 1), (0, 2), (1, 3), (2, 3), (3, 4)], [None, 4, None, None, 1], None),
+                (4, inner_frame_edges(2, 2), [None, 3, None, 1], (2, 2)),
+                (3, [(1, 0), (2, 1)], [2, None, None], None)]
+    for (n, edges, sizes, frame) in portable:
+        for (arg, gp, dp) in ((False, False, True), (False, True, True), (False, True, False), (False, False, False),
+                              (None, True, False), (None, False, False)):
+            if "borders:portable" in found:
+                break
+            try:
+                bad = _check_borders_portable(n, edges, sizes, arg, gp, dp, frame)
+            except core.RealTimeout:
+                raise
+            except Exception as e:
+                bad = ("exception", core.err_name(e), str(e)[:200])
+            ctx.count("search:borders:portable")
+            if bad:
+                found["borders:portable"] = Finding(
+                    "borders:explicit-argument-vs-configuration",
+                    f"division_connected_variable_groups_with_borders(use_graph_primitive={arg}) called while config.use_graph_primitive={gp} and "
+                    f"config.use_graph_division_primitive={dp}, on " + (f"a {frame[0]}x{frame[1]} board (IntArray2D sizes, BoolInnerGridFrame borders)" if frame else f"n={n} edges={edges}")
+                    + f" group_size={sizes} is_border={bad[0]}: the primitive is off, so the portable backend must decide the constraints; "
+                    f"Solver.find_answer('z3') gives {bad[1]}, expected {bad[2]}",
+                    {"fn": "portable", "n": n, "edges": edges, "sizes": sizes, "frame": list(frame) if frame else None, "arg": arg, "gp": gp, "dp": dp})
     for (n, edges) in graphs.small_graphs(rng, budget or ctx.n(12, 30), 4):
         if n > 4 or len(edges) > 6:
             continue
@@ -430,6 +505,10 @@ def replay(ctx, data):
     if data.get("fn") == "bigborders":
         bad = _check_big_borders(data["n"], [tuple(e) for e in data["edges"]], data["variant"])
         return Finding("c07:replay", f"still fails: {str(bad)[:300]}", data) if bad else None
+    if data.get("fn") == "portable":
+        bad = _check_borders_portable(data["n"], [tuple(e) for e in data["edges"]], data["sizes"], data["arg"], data["gp"], data["dp"],
+                                      tuple(data["frame"]) if data.get("frame") else None)
+        return Finding("c07:replay", f"still fails: {bad}", data) if bad else None
     if data.get("fn") == "frame":
         bad = _check_borders_frame(data["H"], data["W"])
         return Finding("c07:replay", f"still fails: {bad}", data) if bad else None
